@@ -150,6 +150,7 @@ fn check_program(ctx: &mut Ctx, setup: &Setup, rng: &mut Rng) {
     }
     // white space that follows an expansion token may belong to the expansion (e.g. the restored argument
     // list of a formal-less macro carries its trailing blanks): either origin is admissible there
+    // (likewise a gap in front of an expansion token: an actual argument may begin with a comment)
     {
         let mut prev_exp = false;
         for p in 0..text.len() {
@@ -161,6 +162,19 @@ fn check_program(ctx: &mut Ctx, setup: &Setup, rng: &mut Rng) {
                     }
                 }
                 _ => prev_exp = false,
+            }
+        }
+        let mut next_exp = false;
+        for p in (0..text.len()).rev() {
+            match class[p] {
+                Class::Exp => next_exp = true,
+                Class::Gap => {
+                    if next_exp {
+                        class[p] = Class::ExpGap;
+                    }
+                }
+                Class::ExpGap => {}
+                _ => next_exp = false,
             }
         }
     }
